@@ -125,25 +125,38 @@ func runC15Label(c *Ctx) {
 			continue
 		}
 		nc++
-		hasEn, hasZh := -1, -1
-		for k, v := range t.PC {
-			if k == `strings.Contains(o0, "explain:")` {
-				hasEn = v
+		contains := func(sub string) int {
+			if v, ok := t.PC[`strings.Contains(o0, "`+sub+`")`]; ok {
+				return v
 			}
-			if k == `strings.Contains(o0, "说明:")` {
-				hasZh = v
+			idx := `strings.Index(o0, "` + sub + `")`
+			if v, ok := t.PC["lt("+idx+",0)"]; ok {
+				return 1 - v
 			}
+			if v, ok := t.PC["eq(-1,"+idx+")"]; ok {
+				return 1 - v
+			}
+			if v, ok := t.PC["lt(-1,"+idx+")"]; ok {
+				return v
+			}
+			return -1
 		}
-		wroteLabel := false
+		hasEn, hasZh := contains("explain:"), contains("说明:")
 		var last string
+		var text strings.Builder // the constant parts of what is written, in order (pieces may be split further)
 		for _, e := range t.Events {
 			if e.Kind == "write" {
 				last = keyOf(e.Args[1])
-				if last == `"explain: "` {
-					wroteLabel = true
+				if s, ok := isCstStr(e.Args[1]); ok {
+					text.WriteString(s)
+				} else if k, ok := isCstInt(e.Args[1]); ok && k >= 0 && k < 128 {
+					text.WriteByte(byte(k))
+				} else {
+					text.WriteString("\x00")
 				}
 			}
 		}
+		wroteLabel := strings.Contains(text.String(), "explain: ")
 		noLabel := hasEn == 0 && hasZh == 0
 		if wroteLabel != noLabel {
 			cbad = append(cbad, fmt.Sprintf("English label written=%v although first extra argument has label: en=%d zh=%d", wroteLabel, hasEn, hasZh))
